@@ -35,6 +35,7 @@ MIN_REACH = {
     "histories_whose_file_is_named_by_a_path_object": {"quick": 15, "thorough": 250},
     "histories_whose_files_keep_one_time_stamp": {"quick": 20, "thorough": 350},
     "states_judged": {"quick": 500, "thorough": 9000},
+    "datasets_changed_in_place_by_the_caller_after_add_ds": {"quick": 25, "thorough": 400},
     "conflicts_refused": {"quick": 25, "thorough": 500},
     "new_sessions": {"quick": 80, "thorough": 1500},
     "disk_loads_compared": {"quick": 400, "thorough": 7000},
@@ -586,6 +587,20 @@ def _run_case(ctx, case):
         if sync and not expect_conflict and err is None and data_name is not None and os.listdir(tmp):
             state["ever_saved"] = True
         judge(op, synced=sync)
+        if op == "add_ds" and err is None and not expect_conflict and nviol == 0 and (istep + case.get("hseed", 0)) % 2 == 0:
+            # the caller re-uses the dataset it handed in (one pre-allocated buffer per chunk; a normalisation in place):
+            # what was harvested is what was handed in THEN, in memory and on disk
+            try:
+                for v_ in list(new_ds.data_vars):
+                    arr_ = new_ds[v_].values
+                    if isinstance(arr_, np.ndarray) and arr_.dtype.kind in "fiuc" and arr_.flags.writeable:
+                        arr_[...] = 98765
+                ctx.count("datasets_changed_in_place_by_the_caller_after_add_ds")
+                hist[-1] += " + caller overwrites its dataset in place"
+                judge(op, synced=sync)
+            except Exception as e:
+                ctx.violation(dict(case, at=list(hist)), "judging after the caller changed its own dataset raised %r" % (e,), dict(sig, oracle="no-exception", op=op, **exc_sig(e)))
+                nviol += 1
     for hh in alive + [h]:
         try:
             if hh is not None and hh._full_ds is not None:
